@@ -543,10 +543,6 @@ theorem parseQuantity_quiet_num (t0 : Tok) (tl : List Tok) (s : BP α)
   refine Sat.bind (Sat.set ?_)
   have hat : At (t0 :: tl) 0 s ({ s with toks := t0 :: tl, cur := 0 } : BP α) := by
     unfold At Same; exact ⟨rfl, rfl, rfl, rfl, rfl⟩
-  have hlast : ∃ l, (t0 :: tl).getLast? = some l ∧ l ∈ t0 :: tl := by
-    cases hl : (t0 :: tl).getLast? with
-    | none => simp at hl
-    | some l => exact ⟨l, rfl, List.mem_of_getLast? hl⟩
   apply Sat.bind
   apply Sat.mono (Q := fun (r : Option (ParsedQuantity α)) s' => r = none ∧ At (t0 :: tl) 0 s s')
   · refine Sat.bind (Sat.hasExt ?_)
@@ -569,13 +565,17 @@ theorem parseQuantity_quiet_num (t0 : Tok) (tl : List Tok) (s : BP α)
       refine Sat.bind (Sat.mono (consumeWhile_at (fun k => k != .word) h2 (t0 :: tl) [] (by simp)
         (by intro t ht; simpa using (hk t ht).2.1) (by intro b hb; cases hb)) ?_)
       rintro _ s3 ⟨rfl, h3⟩
-      obtain ⟨l, hl, hlm⟩ := hlast
-      rw [hl]
-      dsimp only
-      have hlw : (l.kind != .ws) = true := by simpa using (hk l hlm).2.2
-      simp only [hlw, if_true]
-      refine Sat.pure ⟨trivial, ?_⟩
-      exact ⟨h3.1, rfl, h3.2.2⟩
+      cases hl : (t0 :: tl).reverse.find? (fun t => t.kind != TK.blockComment) with
+      | none =>
+        refine Sat.pure ⟨trivial, ?_⟩
+        exact ⟨h3.1, rfl, h3.2.2⟩
+      | some l =>
+        have hlm : l ∈ t0 :: tl := List.mem_reverse.mp (List.mem_of_find?_eq_some hl)
+        dsimp only
+        have hlw : (l.kind != .ws) = true := by simpa using (hk l hlm).2.2
+        simp only [hlw, if_true]
+        refine Sat.pure ⟨trivial, ?_⟩
+        exact ⟨h3.1, rfl, h3.2.2⟩
     · exact Sat.pure ⟨rfl, hat⟩
   · rintro adv s1 ⟨rfl, h1⟩
     dsimp only
